@@ -315,7 +315,7 @@ NATIVE_UNITS = {
                     "the contract ASSUMED for find_stuff_sequence by the Verus units (Some(i) <=> i is the first index with FE FD), "
                     "beyond the lengths the Kani harness c07_find_stuff_sequence_bounded can afford",
                     "every length 0..={NL} x 6 backgrounds x (no pair / FE FD at every position / lone FE / lone FD at every position / "
-                    "a second pair 2, 8, 16, 64 bytes later)"),
+                    "a second pair 2..=17, 31..33, 63..65 bytes later)"),
          NativeTest("verif_native_find_stuff_sequence_windows", ["C01", "C02", "C07", "C08"], "find_stuff_sequence",
                     "as above, around FE / FD: every 3-byte window over the alphabet 00 FC FD FE FF at every position",
                     "every length 0..={NW} and 63..66, 127..130, 255..257 x 3 backgrounds x every position x 125 windows")],
